@@ -238,6 +238,10 @@ func (t *Task) closeFiles() {
 	t.files = map[*os.File]struct{}{}
 }
 
+// Root is the task that stands for the simulated process t belongs to (t itself unless the code under test started t's
+// goroutine).
+func (t *Task) Root() *Task { return t.root() }
+
 // root is the task that stands for the simulated process t belongs to.
 func (t *Task) root() *Task {
 	for t.parent != nil {
@@ -750,16 +754,16 @@ func (s *Sim) runTask(t *Task) {
 		if s.cfg.Settle == nil {
 			<-s.sched
 		} else {
-			// Inside the bubble the clock moves only when every goroutine is durably blocked. If this timer fires
-			// before the task has come back, the task waits on something the scheduler does not own - a channel,
-			// a WaitGroup, a condition, a timer of the code under test - while the tasks that could release it
-			// are parked here. It is set aside (stNative); the others go on; once released it runs on its own up
-			// to its next call into this package, where self() hands it back.
-			tm := time.NewTimer(time.Nanosecond)
+			// Settle (synctest.Wait) returns once every other goroutine of the bubble is durably blocked. If the task
+			// has yielded by then, its send is waiting for us; if not, it waits on something the scheduler does not
+			// own - a channel, a WaitGroup, a condition, a timer of the code under test - while the tasks that could
+			// release it are parked here. It is set aside (stNative); the others go on; once released it runs on its
+			// own up to its next call into this package, where self() hands it back. (No timer is involved: the
+			// simulated clock must not move because of the detection.)
+			s.cfg.Settle()
 			select {
 			case <-s.sched:
-				tm.Stop()
-			case <-tm.C:
+			default:
 				t.state = stNative
 				t.native = true
 				s.natives.Add(1)
